@@ -70,7 +70,7 @@ L['C16'] = dict(modules=['Schc.Properties.C16'], level='proof', technique='Lean 
               T('C16_buffer_history', 'full', 'results independent of history for Buffers: after two histories that spell the same bits on the same side, every further sequence returns the same observations'),
               T('C16_buffer_writes', 'full', 'the attribute writes in buffer.py are exactly the reviewed ones (regenerated table)'),
               T('C16_buffer_calls', 'full', 'every internal pad/shift call is not in-place or acts on a local copy (regenerated table)'),
-              T('C16_sites', 'full', 'the mutation sites of the SCHC-level modules are exactly the reviewed allow-list (regenerated table)')],
+              T('C16_sites', 'full', 'every mutation site of the SCHC-level modules (regenerated table) acts on a list literal / comprehension evaluated in the same call or is in the reviewed allow-list (inclusion: a site that disappears or a helper filling its own fresh list changes nothing)')],
     level_text='Part 1 (Buffer operands): theorems over the byte-level model whose methods return operand post-states, with the inplace flag of each internal call read from the source on this run. Part 2 (no shared object is written above the Buffer): the AST-derived table of every attribute/item assignment, mutating container call and in-place pad/shift must equal a reviewed allow-list — a new cache, memo or in-place call changes the table and breaks the obligation. Part 3 (history independence): the model is a pure function; the hist stream compares every call on long-lived manager / ruler / front end with fresh instances and snapshots all arguments.',
     explanation='aliasing is not modelled as a heap: part 2 is a checked syntactic table plus dynamic snapshots (DESIGN.md §6 C16, §7)')
 L['C18'] = dict(modules=['Schc.Properties.C18', 'Schc.Properties.C01'], level='proof', technique='Lean 4: all three stages run on restrict r d (the descriptors marked d or bidirectional); round trip as a corollary of C01 on the restricted rule',
